@@ -40,6 +40,8 @@ def make_adapter(spec):
         return A.AvgOverTime(step=spec[1] if len(spec) > 1 else None)
     if k == "sum":
         return A.SumOverTime(step=spec[1] if len(spec) > 1 else 0.0, per_time=spec[2] if len(spec) > 2 else True)
+    if k == "stack":
+        return A.StackTime()
     if k == "dfix":
         return A.DelayFixed(timedelta(minutes=spec[1]))
     if k == "dpull":
@@ -49,7 +51,7 @@ def make_adapter(spec):
     raise ValueError(k)
 
 
-PUSH_BASED = {"next", "prev", "lin", "step", "avg", "sum"}
+PUSH_BASED = {"next", "prev", "lin", "step", "avg", "sum", "stack"}
 DELAYS = {"dfix", "dpull", "dpush"}
 PASS = {"scale", "cb"}
 
